@@ -12,6 +12,7 @@ import (
 	"time"
 
 	"github.com/tdakkota/docker-logql/internal/logql"
+	"github.com/tdakkota/docker-logql/internal/logql/lexer"
 	"github.com/tdakkota/docker-logql/internal/zzverif/vk"
 )
 
@@ -922,6 +923,11 @@ func runC05(r *vk.Run) {
 			"grouping-on-sum-over-time": "sum_over_time(" + sel + " | unwrap " + lbl + " [1m]) by (a)",
 			"duplicate-label-format":    selPipe + " | label_format a=b, a=c",
 			"duplicate-label-format-2":  selPipe + ` | label_format a="x", a=c`,
+			// the repeat is a repeat wherever it stands and whatever stands in between
+			"duplicate-label-format-3":  selPipe + ` | label_format c=x, a=y, c=z`,
+			"duplicate-label-format-4":  selPipe + ` | label_format level=lvl, app=service, level="{{.severity}}"`,
+			"duplicate-label-format-5":  selPipe + ` | label_format z="1", m=n, b=c, z=b`,
+			"duplicate-label-format-6":  selPipe + ` | label_format b=a, a=b, b="x"`,
 			"unwrap-on-log-query":       selPipe + " | unwrap " + lbl,
 			"missing-unwrap":            "sum_over_time(" + sel + "[1m])",
 			"missing-unwrap-avg":        "avg_over_time(" + sel + " | json [1m])",
@@ -1037,6 +1043,29 @@ func runC05(r *vk.Run) {
 			}
 			c.Count("corruptions_rejected", 1)
 			c.Seen("corruption_operators", name)
+		}
+		// a text that does not even split into tokens is not made valid by what follows it: if the lexer
+		// refuses a prefix that ends in a complete token, it refuses every continuation of it (units, strings,
+		// closing brackets), and so does the parser
+		for _, pre := range []string{"{a=\"b\"} |= \"caf\xe9\"", "{a=\"b\x00c\"}", "count_over_time({a=\"b\"} |= \"caf\xe9\"", "{a=\"b\"} | x > 09", "topk(08, rate({a=\"b\"}",
+			"{a=\"b\"} |= 'c'", "{a=\"b\"} | x = 1e", "{a=\"b\"} | x = 0x", "{a=`b\xff`}"} {
+			if _, lerr := lexer.Tokenize(pre, lexer.TokenizeOptions{}); lerr == nil {
+				c.Count("sticky_prefixes_the_lexer_accepts", 1)
+				continue // the lexer has no quarrel with this prefix: nothing to compare
+			}
+			for _, suf := range []string{" [5m])", " | y > 5m", " | z < 10KB", " [1h] offset 5m)", " |= \"ok\"", " [5m])) by (a)", " | w >= 1.5h | v <= 2MiB", " # 5m\n | u > 3s"} {
+				text := pre + suf
+				if _, lerr := lexer.Tokenize(text, lexer.TokenizeOptions{}); lerr == nil {
+					c.Fail("", fmt.Sprintf("[lexical-error-forgotten] the lexer refuses %q but accepts it when %q follows", pre, suf), map[string]any{"corruption": "lexical-error-forgotten", "prefix": pre, "suffix": suf})
+					continue
+				}
+				if got, err := parse(c, text); err == nil {
+					c.Fail("", fmt.Sprintf("[lexical-error-forgotten] %q parsed as %s although its prefix %q does not tokenize", text, got, pre), map[string]any{"corruption": "lexical-error-forgotten", "query": text})
+					continue
+				}
+				c.Count("corruptions_rejected", 1)
+				c.Count("sticky_lexical_errors", 1)
+			}
 		}
 		// delete every bracket outside strings/comments of a valid query, one at a time
 		var g gq
